@@ -107,3 +107,8 @@ def diff(a, b, path="", out=None, limit=6):
 def _short(x):
     s = repr(x)
     return s if len(s) < 160 else s[:157] + "..."
+
+
+def sha_text(t):
+    import hashlib
+    return hashlib.sha256(t.encode("utf-8", "replace")).hexdigest()[:16]
